@@ -235,6 +235,52 @@ Theorem C08_determinism : forall (rng val : Type) (seed_rng : Z -> rng)
 Proof. exact do_trials_seq_spec. Qed.
 Print Assumptions C08_determinism.
 
+(* ---- MCDataSamplingBkgGenMethod.generate_events (no pre-selection): the
+   requests go to the handed service in the order [poisson] random(n) [uniform(n)] ---- *)
+Theorem C08_bkg_draws : forall (rng val : Type) (draw : rng -> req -> val * rng) (val_int : val -> Z)
+    (poisson : bool) (n_fixed : Z) (scramble : bool) (r : rss rng),
+  bkg_mc rng val draw val_int poisson n_fixed scramble r
+  = let n := if poisson then val_int (fst (rss_draw rng val draw r (RPoisson 0))) else n_fixed in
+    let r1 := if poisson then snd (rss_draw rng val draw r (RPoisson 0)) else r in
+    let r2 := snd (rc_draw rng val draw r1 n) in
+    (n, if scramble then snd (rss_draw rng val draw r2 (RUniform n)) else r2).
+Proof. exact bkg_mc_spec. Qed.
+Print Assumptions C08_bkg_draws.
+
+(* ---- the seeds recorded in the rows appended by extend_trial_data_file ->
+   create_trial_data_file -> do_trials -> parallelize -> do_trial.  One process:
+   every row carries the chosen, unused seed. ---- *)
+Theorem C08_extend_rows : forall (rng val : Type) (seed_rng : Z -> rng)
+    (draw : rng -> req -> val * rng) (val_int : val -> Z) (rss_seed : Z) (seeds : list Z),
+  exists s, extend_rows rng val seed_rng draw val_int rss_seed seeds 1 = Ok [s]
+            /\ ~ In s seeds /\ extend_seed rss_seed seeds = Ok s.
+Proof. exact extend_rows_single. Qed.
+Print Assumptions C08_extend_rows.
+
+(* several processes - partial: the master's rows carry the chosen unused seed;
+   the rows of worker k carry the k-th randint(0, 2^32) read of the re-seeded
+   service, about which nothing is guaranteed (see the refutation below) *)
+Theorem C08_extend_rows_workers_partial : forall (rng val : Type) (seed_rng : Z -> rng)
+    (draw : rng -> req -> val * rng) (val_int : val -> Z) (rss_seed : Z) (seeds : list Z) (ncpu : Z),
+  1 < ncpu ->
+  exists s, extend_seed rss_seed seeds = Ok s /\ ~ In s seeds
+    /\ extend_rows rng val seed_rng draw val_int rss_seed seeds ncpu
+       = Ok (s :: fst (randints rng val draw val_int (Z.to_nat (ncpu - 1))
+                                {| rs_seed := s; rs_st := seed_rng s |})).
+Proof. exact extend_rows_workers. Qed.
+Print Assumptions C08_extend_rows_workers_partial.
+
+(* refuted for ncpu = 2: a generator whose first randint after seed 2 is 1 makes the
+   worker's rows carry the seed 1, which already occurs in the file *)
+Example C08_extend_rows_workers_refuted :
+  exists (table : list (Z * list Z)) (rss_seed : Z) (seeds : list Z) (s w : Z),
+    extend_rows tm_rng Z (tm_seed table) tm_draw (fun v => v) rss_seed seeds 2 = Ok [s; w]
+    /\ ~ In s seeds /\ In w seeds.
+Proof.
+  exists [(2, [1])], 1, [0; 1], 2, 1. split; [vm_compute; reflexivity|].
+  split; [cbn; intuition lia | cbn; tauto].
+Qed.
+
 (* ---- the caller passes the SAME service as rss and as minimizer_rss ----
    partial: the pseudo data of this trial is still that of generate_pseudo_data
    on rss, but rss is left advanced by the minimiser's `reps` requests too *)
